@@ -178,3 +178,53 @@ Section Client.
         end
     end.
 End Client.
+
+(* ---------- decompressCert: how much is asked of the decompressor (u_handshake_client.go:113, :127) ----------
+   io.ReadFull(decompressed, rawMsg[4:]) then io.ReadFull(decompressed, probe[:1]): the buffers handed to Read. Whatever the stream
+   inflates to, no more than their total is ever pulled out of (and materialised from) the decompressor. *)
+Definition decompress_read_buffers (declared : N) : list N := [declared; 1].
+Definition decompress_pulled_max (capped : bool) (advertised : list N) (alg ulen : N) (open_ok : bool) : N :=
+  match decompress_alloc capped advertised alg ulen open_ok with
+  | Ok _ => fold_right N.add 0 (decompress_read_buffers ulen)
+  | _ => 0
+  end.
+
+(* ---------- establishHandshakeKeys: the slice expressions on the server's key share (handshake_client_tls13.go:588-649) ---------- *)
+Definition X25519MLKEM768 : N := 4588.
+Definition X25519Kyber768Draft00 : N := 25497.
+Definition a_illegal_parameter : N := 47.
+Definition hybrid_share_len : nat := 1120.      (* mlkem.CiphertextSize768 (1088) + x25519PublicKeySize (32) *)
+(* Ok = ecdhePeerData handed to getSharedKey (which validates its length itself); Err = alert *)
+Definition establish_share_slices (group : N) (data : bytes) : res bytes :=
+  do e1 <- (if group =? X25519MLKEM768 then                                   (* :589-595 *)
+              if negb (length data =? hybrid_share_len)%nat then Err a_illegal_parameter else slice_from data 1088
+            else Ok data);
+  do e2 <- (if group =? X25519Kyber768Draft00 then                            (* :597-603 *)
+              if negb (length e1 =? hybrid_share_len)%nat then Err a_illegal_parameter else slice_to data 32
+            else Ok e1);
+  do _ <- (if group =? X25519MLKEM768 then slice_to data 1088 else Ok []);    (* :623 ciphertext := data[:1088] *)
+  do _ <- (if group =? X25519Kyber768Draft00 then slice_from data 32 else Ok []);   (* :642 ciphertext := data[32:] *)
+  Ok e2.
+
+(* ---------- lock discipline of a post-handshake HelloRequest (conn.go Read, u_conn.go:959-1006, u_conn.go:361-371) ----------
+   One goroutine; sync.Mutex is not reentrant: acquiring a mutex it already holds blocks it forever (no I/O pending, so neither a
+   deadline nor Close wakes it); unlocking a mutex it does not hold is a fatal error. *)
+Inductive lk := L_in | L_hs.                      (* c.in (halfConn mutex), c.handshakeMutex *)
+Inductive lop := Acq (l : lk) | Rel (l : lk).
+Definition lk_eqb (a b : lk) : bool := match a, b with L_in, L_in | L_hs, L_hs => true | _, _ => false end.
+Definition E_SELF_DEADLOCK : N := 210.
+Definition P_UNLOCK : N := 4.
+Fixpoint lock_run (held : list lk) (ops : list lop) : res (list lk) :=
+  match ops with
+  | [] => Ok held
+  | Acq l :: r => if existsb (lk_eqb l) held then Err E_SELF_DEADLOCK else lock_run (l :: held) r
+  | Rel l :: r => if existsb (lk_eqb l) held then lock_run (filter (fun x => negb (lk_eqb l x)) held) r else Panic P_UNLOCK
+  end.
+(* UConn.handshakeContext, u_conn.go:361-371 (+ deferred unlocks): what c.Handshake() does *)
+Definition ops_handshake_context : list lop := [Acq L_hs; Acq L_in; Rel L_in; Rel L_hs].
+(* UConn.handleRenegotiation, u_conn.go:993-1006: handshakeMutex only; BuildHandshakeState and clientHandshake take no lock *)
+Definition ops_handle_renegotiation : list lop := [Acq L_hs; Rel L_hs].
+(* Conn.Read after the handshake: c.in.Lock(); readRecord; handlePostHandshakeMessage (-> handleRenegotiation for a HelloRequest
+   on TLS <= 1.2 when the client's policy allows it); deferred c.in.Unlock() *)
+Definition ops_read (renegotiations : nat) : list lop :=
+  [Acq L_in] ++ concat (repeat ops_handle_renegotiation renegotiations) ++ [Rel L_in].
